@@ -1,7 +1,7 @@
 from __future__ import annotations
 
 import string
-from typing import TYPE_CHECKING, Callable, ClassVar
+from typing import TYPE_CHECKING, Any, Callable, ClassVar
 
 from dissect.cstruct.exceptions import ExpressionParserError, ExpressionTokenizerError
 
@@ -150,6 +150,15 @@ class ExpressionTokenizer:
         return self.tokens
 
 
+def _anonymous_member_field(context: dict[str, Any], name: str) -> Any | None:
+    """Look up a field of an anonymous structure member in the context (such fields are fields of the parent)."""
+    for value in context.values():
+        type_ = value.__class__
+        if getattr(type_, "__anonymous__", False) and name in type_.fields:
+            return getattr(value, name)
+    return None
+
+
 class Expression:
     """Expression parser for calculations in definitions."""
 
@@ -248,6 +257,8 @@ class Expression:
                 queue.append(int(current_token, 0))
             elif current_token in context:
                 queue.append(int(context[current_token]))
+            elif (value := _anonymous_member_field(context, current_token)) is not None:
+                queue.append(int(value))
             elif current_token in self.cstruct.consts:
                 queue.append(int(self.cstruct.consts[current_token]))
             elif current_token in self.unary_operators:
